@@ -82,6 +82,11 @@ def c02_state(sim) -> List[Tuple[str, tuple, str]]:
         st = sim.stations.get(sid)
         if st is None or cid not in st.state:
             out.append(("plug_count", (cid, "charging_on_plug_not_installed"), f"{n} vehicle(s) charging at station {sid} on plug type {cid}, which is not installed there"))
+    # ... and nobody can be waiting for one: the station has no counter for it
+    for (sid, cid), n in queueing.items():
+        st = sim.stations.get(sid)
+        if st is None or cid not in st.state:
+            out.append(("queue_count", (cid, "queueing_for_plug_not_installed"), f"{n} vehicle(s) queueing at station {sid} for plug type {cid}, which is not installed there (the station keeps no waiting counter for it)"))
     for bid, b in sim.bases.items():
         if not (0 <= b.available_stalls <= b.total_stalls):
             out.append(("stall_range", (), f"base {bid}: available={b.available_stalls} total={b.total_stalls}"))
